@@ -294,6 +294,11 @@ ref_epoch.lib = dict(_C15.LIB)
 CONTRACTS += [ref_epoch]
 
 
+# the marginal likelihood of the identity is also evaluated through the cached path: the readers and the likelihood plumbing are listed here too
+from . import chain as CH   # noqa: E402
+CH.extend(CONTRACTS, CH.readers() + CH.plumbing(("ll",)) + CH.tables(pack=True, unpack=True))
+
+
 def EXTRA():
     # orbit reconstruction and the unmarginalised likelihood only READ the samples and the data
     from jvc import effects
